@@ -203,13 +203,19 @@ def case_window(c):
 
 
 # ------------------------------------------------------------------ streams
-def _run_history(fb, x, z, ops, M, N, buf=None):
+def _run_history(fb, x, z, ops, M, N, buf=None, strided=False):
     """Execute ops on the real object.  Returns list of (op, output-or-None, state_key_fields).
     With `buf`, the caller streams through ONE reused buffer: each chunk is written into buf[:len] and passed."""
     out = []
     for op in ops:
         if op[0] == 'c':
             chunk = x[op[1] * N:op[2] * N]
+            if strided:
+                # every chunk arrives as a NON-contiguous view (every other element of a larger buffer, e.g. one polarisation of an
+                # interleaved recording)
+                big = np.zeros(2 * len(chunk) + 1, dtype=chunk.dtype) - 3
+                big[1::2] = chunk
+                chunk = big[1::2]
             if buf is not None:
                 view = buf[:len(chunk)]
                 view[:] = chunk
@@ -339,10 +345,10 @@ def case_stream(c):
         V('oneshot_shape', 'probe call returned shape %s expected %s' % (Z0.shape, Zref.shape))
         return res
 
-    def check_history(ops, failure, label, reuse=False):
+    def check_history(ops, failure, label, reuse=False, strided=False):
         fb = _new(M, P, win)
         try:
-            hist = _run_history(fb, x, z, ops, M, N, buf=np.empty_like(x) if reuse else None)
+            hist = _run_history(fb, x, z, ops, M, N, buf=np.empty_like(x) if reuse else None, strided=strided)
         except Exception as e:
             V('raised', '%s: %s: %s' % (label, type(e).__name__, e))
             res['n'] += 1
@@ -377,6 +383,8 @@ def case_stream(c):
         n_comp += 1
         base = _chunks(comp)
         check_history(base, 'chunk_mismatch', 'stream cut into chunks of %s windows' % (comp,))
+        check_history(base, 'strided_input', 'stream cut into chunks of %s windows, every chunk handed over as a non-contiguous view' % (comp,),
+                      strided=True)
         if CHECK_BUFFER_REUSE and len(comp) >= 2:
             check_history(base, 'buffer_reuse', 'stream cut into chunks of %s windows, every chunk passed through one '
                           'reused caller buffer' % (comp,), reuse=True)
